@@ -81,7 +81,7 @@ func genC12Extra(t *rapid.T) []cfggen.User {
 	return out
 }
 
-var nasty = []string{"%", "%d", "%!", "%s%s%s", "100%", `"`, `\`, `\"`, "<", "&", ">", "\x00", "\x01\x02", "\n", "\t", "\x7f", "%!d(MISSING)", "%%", "%v", "%+v", "%[1]s", "%09d", "{", "}", "',"}
+var nasty = []string{"%", "%d", "%!", "%s%s%s", "100%", `"`, `\`, `\"`, "<", "&", ">", "\x00", "\x01\x02", "\n", "\t", "\x7f", "%!d(MISSING)", "%%", "%v", "%+v", "%[1]s", "%09d", "{", "}", "',", `\u003c`, `\u003e`, `\u0026`, `\u0000`, `\n`, `\\`, `\x00`, "&lt;", "\\u003c<"}
 
 func genNastyText(t *rapid.T, label string, max int) model.B {
 	var sb strings.Builder
